@@ -172,7 +172,10 @@ class World:
 
             def kinds(c):
                 out = []
-                for r in c.cssRules:
+                rules = list(c.cssRules)
+                for i, r in enumerate(rules):
+                    if r.typeString == "NAMESPACE_RULE" and any(x.typeString == "NAMESPACE_RULE" and x.prefix == r.prefix for x in rules[i + 1 :]):
+                        continue  # a later rule binds the same prefix: the parser keeps one per prefix (no ordering loss)
                     kk, txt = lib.call(lambda: r.cssText)
                     if kk == "ok" and not txt:
                         continue
